@@ -93,3 +93,124 @@ def _mk_box(bi):
 
 for _bi in range(len(_BOXES)):
     _mk_box(_bi)
+
+
+# --- composition: rendered tables (C+S) ------------------------------------------------------------------------------
+from rich.table import Table  # noqa: E402
+from vf import catalogue as cat  # noqa: E402
+
+_CELLS = ["kabcde", "hello brave new world", "中文 wide 字", "two\nlines here", "", "x"]
+_RATIOS = [None, (1, 1, 1), (1, 30, 2), (None, 2, 1)]
+F_T7 = ["rich/table.py:Table.__rich_console__", "rich/table.py:Table._render", "rich/table.py:Table._calculate_column_widths",
+        "rich/table.py:Table._get_cells", "rich/segment.py:Segment.set_shape", "rich/box.py:Box.get_row", "rich/_ratio.py:ratio_distribute",
+        "rich/_ratio.py:ratio_reduce"]
+
+
+def _nonspace(s):
+    return "".join(ch for ch in s if not ch.isspace())
+
+
+def _table_ok(ncol, nrow, hdr, pl, pr, expand, ri, w, shift) -> bool:
+    ratios = _RATIOS[ri]
+    t = Table(box=box_mod.ASCII, show_lines=True, show_header=hdr, padding=(0, pr, 0, pl), expand=expand)
+    for ci in range(ncol):
+        t.add_column("H%d" % ci, overflow="fold", ratio=(ratios[ci] if ratios else None))
+    rows = []
+    for r in range(nrow):
+        row = [_CELLS[(r * 2 + ci + shift) % len(_CELLS)] for ci in range(ncol)]
+        rows.append(row)
+        t.add_row(*row)
+    smin = (ncol + 1) + ncol * (pl + pr + 2)
+    if w < smin:
+        return True
+    c = cat.console()
+    lines = cat.render_lines(c, t, w)
+    ws = cat.widths(lines)
+    if len(set(ws)) > 1 or (ws and ws[0] > w) or (expand and ws and ws[0] != w):
+        return False
+    if not lines:
+        return nrow == 0 and not hdr
+    # column spans (in cells) from the vertical bars of the first content line: cell texts never contain '|'
+    content = [l for l in lines if l.startswith("|") and not l.startswith("|-") and not l.startswith("|=")]
+    if not content:
+        return nrow == 0 and not hdr
+    plus = []
+    pos = 0
+    for ch in content[0]:
+        if ch == "|":
+            plus.append(pos)
+        pos += rwc(ch)
+    if len(plus) != ncol + 1:
+        return False
+    # row groups are separated by border lines (they start with '+' or '|-')
+    groups = []
+    cur = []
+    for line in lines[1:]:
+        if line.startswith("+") or line.startswith("|-") or line.startswith("|="):
+            groups.append(cur)
+            cur = []
+        else:
+            cur.append(line)
+    want_rows = ([["H%d" % ci for ci in range(ncol)]] if hdr else []) + rows
+    groups = [g for g in groups if g] if len(groups) != len(want_rows) else groups
+    if len(groups) != len(want_rows):
+        return False
+    from vf import known
+    starved_wide = any(plus[ci + 1] - plus[ci] - 1 - pl - pr < 2 and any(rwc(ch) == 2 for wr in want_rows for ch in wr[ci])
+                       for ci in range(ncol))
+    if known.skip("C07-render", {"ratios": ri, "starved_wide": starved_wide, "expand": expand}):
+        return True
+    for g, wr in zip(groups, want_rows):
+        for ci in range(ncol):
+            a, b = plus[ci] + 1, plus[ci + 1]
+            got = ""
+            for line in g:
+                # cell offsets: all characters here are single-width except the CJK ones; convert cell offsets to indices
+                got += _nonspace(_cells_slice(line, a, b))
+                if line[_index_of_cell(line, a) - 1] != "|" or _cells_slice(line, b, b + 1) != "|":
+                    return False
+            if got != _nonspace(wr[ci]):
+                return False
+    return True
+
+
+def _index_of_cell(line, cell):
+    pos = 0
+    for i, ch in enumerate(line):
+        if pos >= cell:
+            return i
+        pos += rwc(ch)
+    return len(line)
+
+
+def _cells_slice(line, a, b):
+    return line[_index_of_cell(line, a):_index_of_cell(line, b)]
+
+
+from vf.common import ref_width_concrete as rwc  # noqa: E402
+
+
+def _mk_tables(ncol, tiers, timeout, wmax):
+    @symx("C07-render-%dcol-w%d" % (ncol, wmax), tiers=tiers, timeout=timeout, kind="C+S", functions=F_T7,
+          bounds="ASCII-box tables with %d fold-overflow columns x 0..3 rows x header on/off x padding left/right 0..2 x expand x ratio "
+                 "vectors %r x cell contents rotated through %r x available width from the structural minimum to %d "
+                 "(solver-enumerated, native): all lines equally wide (== width when expanding); rows in insertion order on "
+                 "disjoint line ranges; every non-whitespace character of every cell (and header) appears, in order, inside its "
+                 "column's span located from the border" % (ncol, _RATIOS, _CELLS, wmax),
+          outside="more than 3 columns / 3 rows; boxes other than ASCII for the content clause (border widths for every box: "
+                  "C07-box-rows-*)")
+    def h(e):
+        nrow = int(e.mk("rows", 0, 3))
+        hdr = bool(e.mkbool("header"))
+        pl, pr = int(e.mk("pad_left", 0, 2)), int(e.mk("pad_right", 0, 2))
+        expand = bool(e.mkbool("expand"))
+        ri = int(e.mk("ratios", 0, len(_RATIOS) - 1))
+        shift = int(e.mk("content_shift", 0, 2))
+        w = int(e.mk("width", 1, wmax))
+        return _table_ok(ncol, nrow, hdr, pl, pr, expand, ri, w, shift)
+    return h
+
+
+for _n in (1, 2, 3):
+    _mk_tables(_n, ("quick",), 900, 36)
+    _mk_tables(_n, ("thorough",), 3400, 70)
